@@ -23,6 +23,16 @@ def gen_shape(rng: random.Random) -> dict:
             nn = names.fresh("n")
             nodes.append({"name": nn, "kind": "fn", "params": [["x", None]], "dataOuts": [names.fresh("v")], "body": {"b": "tag", "t": nn},
                           "syncBody": rng.random() < 0.25})      # plain `def` functions next to `async def` ones: both count
+            if rng.random() < 0.2:
+                # a generator function (async or plain): its body runs while its values are collected — inside the permit as well
+                nodes[-1]["body"] = {"b": "gen", "t": nn, "k": rng.randint(1, 3)}
+        if rng.random() < 0.3:
+            # a gate deciding on the same input, next to the bodies of its step: its routing function is a node function too, it takes a
+            # permit like the others (its targets run a step later)
+            gname = names.fresh("g")
+            tname = names.fresh("n")
+            nodes.append({"name": gname, "kind": "ifelse", "params": [["x", None]], "targets": [tname, "__END__"], "body": {"b": "lt", "k": 99}, "defaultOpen": True})
+            nodes.append({"name": tname, "kind": "fn", "params": [["x", None]], "dataOuts": [names.fresh("v")], "body": {"b": "tag", "t": tname}})
         has_int = False
         if rng.random() < 0.25:
             # an interrupt whose (async) handler answers: a node function like any other, it takes a permit too
